@@ -9,6 +9,8 @@ From I18n Require Import Lib.Outcome Model.IntExpr Model.PluralForms Generated.P
 From I18n Require Model.MoParser Model.FmtC Model.Header Model.Messages Model.Dates Model.Ling Model.LingData Model.Encodings
   Proofs.EncodingsTable.
 From I18n Require Props.C09 Props.C11 Props.C15 Props.C16 Props.C18 Props.C19 Props.C20.
+From Coq Require Import Bool String.
+From I18n Require Model.Handlers Generated.RaiseSites Proofs.Handlers.
 Import ListNotations.
 Local Open Scope Z_scope.
 
@@ -77,3 +79,70 @@ Theorem C01_charset_proposal_total : forall o, EncodingsTable.ascii_cased o -> f
   Encodings.propose_portable_encoding Encodings.real_enc_data o enc <> Crash c.
 Proof. exact C20.C20_proposal_never_asserts. Qed.
 Print Assumptions C01_charset_proposal_total.
+
+(* ---- the handlers: exception flow from the tool's own raise statements to the except clauses of the checker.
+   Generated/RaiseSites.v is rewritten from the python ast of /repo/lib on every run (tools/gen/gen_raisesites.py):
+   one row per (call, function mention or raise statement in lib/cli.py, lib/check/__init__.py, lib/check/msgformat/*.py,
+   exception class that the may-raise summary of the callee contains).  Every row is caught by an except clause of the
+   same function that names the class or a base of it (and tags, ignores or converts it), or by such a clause around every
+   call of that function in the checker, or is raised at import time, or is on the reviewed whitelist of the generator,
+   or is a recorded defect of /repo (listed exactly by C01_known_uncaught_errors below).  A removed or narrowed except
+   clause, or a new raise in a function the checker calls, makes this false.  What the table does not see: notes/C01.md. *)
+Theorem C01_every_own_error_is_caught : forallb Handlers.site_ok RaiseSites.checker_sites = true.
+Proof. vm_compute. reflexivity. Qed.
+Print Assumptions C01_every_own_error_is_caught.
+
+Theorem C01_no_site_left_uncaught : forall s, In s RaiseSites.checker_sites -> Handlers.handled s.
+Proof. exact (Proofs.Handlers.all_sites_handled _ C01_every_own_error_is_caught). Qed.
+Print Assumptions C01_no_site_left_uncaught.
+
+(* rows that are NOT caught and are recorded defects of /repo: none today (a KnownDefect entry of the generator must be mirrored here) *)
+Theorem C01_known_uncaught_errors : filter Handlers.is_known_defect RaiseSites.checker_sites = [].
+Proof. vm_compute. reflexivity. Qed.
+Print Assumptions C01_known_uncaught_errors.
+
+(* every raise statement of the summarised modules has a known class (an unknown one would be caught by nothing) *)
+Theorem C01_every_lib_raise_is_classified : forall r, In r RaiseSites.lib_raise_sites -> Handlers.r_status r <> Handlers.Unclassified.
+Proof. exact (Proofs.Handlers.all_raises_classified _ (eq_refl : forallb Handlers.raise_ok RaiseSites.lib_raise_sites = true)). Qed.
+Print Assumptions C01_every_lib_raise_is_classified.
+
+(* operator / attribute-access methods of lib classes, which the translator does not follow, raise nothing *)
+Theorem C01_implicit_methods_do_not_raise : forallb Handlers.m_summary_empty RaiseSites.implicit_methods = true.
+Proof. vm_compute. reflexivity. Qed.
+Print Assumptions C01_implicit_methods_do_not_raise.
+
+(* non-vacuity: the rows that the property is about are in the table, with the handler that turns them into a tag *)
+Example C01_ex_zero_division_tagged :
+  existsb (fun s => Handlers.site_is "lib/check/__init__.py" "Checker.check_plurals" "Expression.__call__" "ZeroDivisionError" s
+                    && Handlers.caught_with Handlers.HTag s) RaiseSites.checker_sites = true.
+Proof. vm_compute. reflexivity. Qed.
+Example C01_ex_overflow_tagged :
+  existsb (fun s => Handlers.site_is "lib/check/__init__.py" "Checker.check_plurals" "Expression.__call__" "OverflowError" s
+                    && Handlers.caught_with Handlers.HTag s) RaiseSites.checker_sites = true.
+Proof. vm_compute. reflexivity. Qed.
+Example C01_ex_plural_syntax_tagged :
+  existsb (fun s => Handlers.site_is "lib/check/__init__.py" "Checker.check_plurals" "gettext.parse_plural_forms" "gettext.PluralExpressionSyntaxError" s
+                    && Handlers.caught_with Handlers.HTag s) RaiseSites.checker_sites = true.
+Proof. vm_compute. reflexivity. Qed.
+Example C01_ex_date_syntax_tagged :
+  existsb (fun s => Handlers.site_is "lib/check/__init__.py" "Checker.check_dates" "gettext.fix_date_format" "gettext.DateSyntaxError" s
+                    && Handlers.caught_with Handlers.HTag s) RaiseSites.checker_sites = true.
+Proof. vm_compute. reflexivity. Qed.
+Example C01_ex_fix_codes_tagged :
+  existsb (fun s => Handlers.site_is "lib/check/__init__.py" "Checker.check_language" "Language.fix_codes" "ling.FixingLanguageCodesFailed" s
+                    && Handlers.caught_with Handlers.HTag s) RaiseSites.checker_sites = true.
+Proof. vm_compute. reflexivity. Qed.
+Example C01_ex_mo_syntax_tagged :
+  existsb (fun s => Handlers.site_is "lib/check/__init__.py" "Checker.check" "polib.mofile" "moparser.SyntaxError" s
+                    && Handlers.caught_with Handlers.HTag s) RaiseSites.checker_sites = true.
+Proof. vm_compute. reflexivity. Qed.
+Example C01_ex_c_format_error_tagged :
+  existsb (fun s => Handlers.site_is "lib/check/msgformat/c.py" "Checker.check_string" "FormatString.__init__" "strformat.c.Error" s
+                    && Handlers.caught_with Handlers.HTag s) RaiseSites.checker_sites = true.
+Proof. vm_compute. reflexivity. Qed.
+Example C01_ex_xml_error_tagged :
+  existsb (fun s => Handlers.site_is "lib/check/__init__.py" "Checker._check_message_xml_format" "xml.check_fragment" "xml.parsers.expat.ExpatError" s
+                    && Handlers.caught_with Handlers.HTag s) RaiseSites.checker_sites = true.
+Proof. vm_compute. reflexivity. Qed.
+Example C01_ex_table_size : (100 <=? N.of_nat (List.length RaiseSites.checker_sites))%N = true /\ (100 <=? N.of_nat (List.length RaiseSites.lib_raise_sites))%N = true.
+Proof. vm_compute. split; reflexivity. Qed.
